@@ -13,6 +13,6 @@ with open('ttype_names.ml', 'w') as f:
     for n in names:
         f.write('  | %s -> "%s"\n' % (n, re.sub(r"[0-9']+$", '', n)))
 PY
-ocamlfind ocamlopt -O3 -w -a -package str model.mli model.ml zarith_free.ml ttype_names.ml driver.ml -o driver 2>build.log || \
-ocamlfind ocamlopt -w -a model.mli model.ml zarith_free.ml ttype_names.ml driver.ml -o driver 2>build.log || { cat build.log; exit 1; }
+ocamlfind ocamlopt -O3 -w -a -package str,unix -linkpkg model.mli model.ml zarith_free.ml ttype_names.ml driver.ml -o driver 2>build.log || \
+ocamlfind ocamlopt -w -a -package unix -linkpkg model.mli model.ml zarith_free.ml ttype_names.ml driver.ml -o driver 2>build.log || { cat build.log; exit 1; }
 echo built
